@@ -129,9 +129,12 @@ func (t *fnTrans) contractReturn(in *ssa.Return, rs []string) {
 		binds := map[string]sval{}
 		sig := ic.method.Type().(*types.Signature)
 		for i := 0; i < sig.Params().Len(); i++ {
-			if n := sig.Params().At(i).Name(); n != "" && i+1 < len(t.fn.Params) {
+			if i+1 < len(t.fn.Params) {
 				p := t.fn.Params[i+1]
-				binds[n] = sval{term: t.val(p), typ: p.Type(), sort: t.sortOf(p.Type())}
+				if n := sig.Params().At(i).Name(); n != "" {
+					binds[n] = sval{term: t.val(p), typ: p.Type(), sort: t.sortOf(p.Type())}
+				}
+				binds[fmt.Sprintf("arg%d", i)] = sval{term: t.val(p), typ: p.Type(), sort: t.sortOf(p.Type())}
 			}
 		}
 		if len(t.fn.Params) > 0 {
@@ -546,6 +549,7 @@ func (t *fnTrans) contractInvoke(in ssa.Instruction, cc *ssa.CallCommon, res ssa
 		if n := sig.Params().At(i).Name(); n != "" {
 			binds[n] = sval{term: t.val(cc.Args[i]), typ: sig.Params().At(i).Type(), sort: t.sortOf(sig.Params().At(i).Type())}
 		}
+		binds[fmt.Sprintf("arg%d", i)] = sval{term: t.val(cc.Args[i]), typ: sig.Params().At(i).Type(), sort: t.sortOf(sig.Params().At(i).Type())}
 	}
 	binds["self"] = sval{term: t.val(cc.Value), typ: cc.Value.Type(), sort: "Iface"}
 	// union of summaries of the implementations
@@ -666,7 +670,13 @@ func (t *fnTrans) applyContract(in ssa.Instruction, fc *FuncContract, callee *ss
 		} else {
 			t.havocVars(sum.all, sum.vars)
 		}
+		t.ownFrame(preState, cc.Args)
 		t.freshResults(res, nameOf(res, "r"))
+		if fc.freshOnly {
+			// the callee writes only objects nobody else references (fresh or recycled):
+			// every field of every object other than the result keeps its value
+			t.freshOnlyFrame(preState, res)
+		}
 	}
 	for _, k := range acq {
 		t.h.set(t.cur, "held", store(t.h.get(t.cur, "held"), k, "true"))
@@ -691,4 +701,23 @@ func (t *fnTrans) applyContract(in ssa.Instruction, fc *FuncContract, callee *ss
 		}
 	}
 	t.usedContracts[full] = true
+}
+
+
+func (t *fnTrans) freshOnlyFrame(pre *State, res ssa.Value) {
+	if res == nil {
+		return
+	}
+	r := t.vals[res][0]
+	for _, hv := range t.h.allVars() {
+		if !strings.HasPrefix(hv, "F:") {
+			continue
+		}
+		a, b := t.h.get(pre, hv), t.h.get(t.cur, hv)
+		if a == b {
+			continue
+		}
+		x := q(t.c.fresh("x"))
+		t.assume(fmt.Sprintf("(forall ((%s Int)) (! (=> (not (= %s %s)) (= (select %s %s) (select %s %s))) :pattern ((select %s %s))))", x, x, r, b, x, a, x, b, x))
+	}
 }
